@@ -10,6 +10,8 @@ T=seeded_${ID}_$X
 cd "$W" || exit 2
 git checkout -q -- . ; cp "$S/$X/demo.rs" "tests/$T.rs"
 export CARGO_NET_OFFLINE=true
+export CARGO_TARGET_DIR=/tmp/seed/target
+export CARGO_INCREMENTAL=0
 timeout 3000 cargo test --offline --test "$T" > "$OUT/demo-without.log" 2>&1; r0=$?
 git apply "$S/$X/patch.diff" || { echo "patch does not apply"; exit 2; }
 timeout 3000 cargo test --offline --test "$T" > "$OUT/demo-with.log" 2>&1; r1=$?
